@@ -113,20 +113,22 @@ def xclassAll (d : ClassDiagram) (c : Class) : XClass :=
   { kl := c.kl, attrs := (looseOf d c.id).filterMap (xattr d) ++ (xclassOf d c).attrs }
 
 /-- `build_schema(m, c_c)` as a declaration list.  The second loop of the code takes the data types that are contained in
-    the component AND not global (so that none is declared twice); in the model a contained data type is never global
-    (`contained_not_global`, Props/C20 `xsd_type_loops_disjoint`), so the second condition is not repeated here. -/
+    the component AND not global: a data type of a global package that a package of the component REFERS to (EP_PKGREF)
+    is global and contained, and is declared by the first loop only (fix 6208c4e; Props/C20 `xsd_type_loops_disjoint`,
+    `xsd_global_contained_declared_once`).  Without package references a contained data type is never global
+    (`contained_not_global_plain`) and the second condition filters nothing (`xsdSpec_no_pkgref`). -/
 def xsdSpec (d : ClassDiagram) (comp : Nat) : XsdSpec :=
   { types := (d.dts.filter (fun t => isGlobal d.containers t.parent)).filterMap (xtypeOf d.dts) ++
-             (d.dts.filter (fun t => containedIn d.containers comp t.parent)).filterMap (xtypeOf d.dts),
+             (d.dts.filter (fun t => containedIn d.containers d.pkgrefs comp t.parent && !isGlobal d.containers t.parent)).filterMap (xtypeOf d.dts),
     comp := compName d comp,
-    classes := (d.classes.filter (fun c => containedIn d.containers comp c.parent)).map (xclassAll d) }
+    classes := (d.classes.filter (fun c => containedIn d.containers d.pkgrefs comp c.parent)).map (xclassAll d) }
 
 /-- the same when every attribute is on the R103 chain of its class (`d.loose = []`, see `xsdSpec_chained`) -/
 def xsdSpecChained (d : ClassDiagram) (comp : Nat) : XsdSpec :=
   { types := (d.dts.filter (fun t => isGlobal d.containers t.parent)).filterMap (xtypeOf d.dts) ++
-             (d.dts.filter (fun t => containedIn d.containers comp t.parent)).filterMap (xtypeOf d.dts),
+             (d.dts.filter (fun t => containedIn d.containers d.pkgrefs comp t.parent && !isGlobal d.containers t.parent)).filterMap (xtypeOf d.dts),
     comp := compName d comp,
-    classes := (d.classes.filter (fun c => containedIn d.containers comp c.parent)).map (xclassOf d) }
+    classes := (d.classes.filter (fun c => containedIn d.containers d.pkgrefs comp c.parent)).map (xclassOf d) }
 
 /-! ### the XML around the declarations -/
 
@@ -379,19 +381,19 @@ def xresolve (d : ClassDiagram) (comp : Nat) (e : XEdit) : XSEdit :=
     | some x =>
       if isGlobal d.containers t.parent then
         .insertType ((d.dts.filter (fun t => isGlobal d.containers t.parent)).filterMap (xtypeOf d.dts)).length x
-      else if containedIn d.containers comp t.parent then
+      else if containedIn d.containers d.pkgrefs comp t.parent then
         .insertType (((d.dts.filter (fun t => isGlobal d.containers t.parent)).filterMap (xtypeOf d.dts)).length +
-          ((d.dts.filter (fun t => containedIn d.containers comp t.parent)).filterMap (xtypeOf d.dts)).length) x
+          ((d.dts.filter (fun t => containedIn d.containers d.pkgrefs comp t.parent && !isGlobal d.containers t.parent)).filterMap (xtypeOf d.dts)).length) x
       else .nop
     | none => .nop
   | .moveClass c p =>
     match findClass d c with
     | some k =>
-      match containedIn d.containers comp k.parent, containedIn d.containers comp p with
+      match containedIn d.containers d.pkgrefs comp k.parent, containedIn d.containers d.pkgrefs comp p with
       | true, false => .dropClass k.kl
       | false, true =>
         .insertClass ((d.classes.takeWhile (fun x => x.id != c)).filter
-          (fun x => containedIn d.containers comp x.parent)).length (xclassOf d k)
+          (fun x => containedIn d.containers d.pkgrefs comp x.parent)).length (xclassOf d k)
       | _, _ => .nop
     | none => .nop
 
